@@ -69,7 +69,7 @@ def run(ck):
     # random walks of the model
     sconsts = dict(consts, MaxHist=40 if quick else 80)
     cfg = vlib.cfg_with(sw, "SeqSlotsImpl_sim.cfg", sconsts)
-    r = vlib.tlc(sw, "SeqSlotsImpl", cfg, workers=1, simulate=300 if quick else 5000, depth=100, seed=ck.seed, timeout=1500)
+    r = vlib.tlc(sw, "SeqSlotsImpl", cfg, workers=1, simulate=300 if quick else 2000, depth=100, seed=ck.seed, timeout=1500)
     if r.violated or r.error:
         raise vlib.Inconclusive("SeqSlotsImpl simulation: %s\n%s" % (r.violated or r.error, r.tail()))
     ck.add_tlc("SeqSlotsImpl random simulation", r, sconsts, exhaustive=False)
